@@ -177,6 +177,19 @@ def cfg_layout(cfg, root):
         target, pre = root / ".mockery.yaml", ["--config", ".mockery.yaml"]
     elif cfg == "eqform":
         target, pre = root / "conf.yml", ["--config=conf.yml"]
+    elif cfg in ("linkup", "linkupabs", "linkdir"):
+        # lnk -> far/inner (a directory elsewhere).  lnk/.. is far/ for the kernel, the module root lexically.
+        (root / "far" / "inner").mkdir(parents=True, exist_ok=True)
+        if not os.path.lexists(root / "lnk"):
+            os.symlink("far/inner", root / "lnk")
+        if cfg == "linkup":
+            target, pre = root / "far" / "x.yml", ["--config", "lnk/../x.yml"]
+        elif cfg == "linkupabs":
+            target, pre = root / "far" / "xa.yml", ["--config", str(root / "lnk") + "/../xa.yml"]
+        else:
+            target, pre = root / "far" / "inner" / "ld.yml", ["--config", "lnk/ld.yml"]
+    elif cfg == "dslash":
+        target, pre = root / "cfgs" / "conf.yml", ["--config", "cfgs//./conf.yml"]
     elif cfg == "after":
         target, post = root / "conf.yml", ["--config", "conf.yml"]   # flag after the sub-command (init only)
     else:
@@ -185,6 +198,29 @@ def cfg_layout(cfg, root):
 
 
 USER_VALID = "# written by the user, not by init\nall: false\nlog-level: warn\npackages:\n  {mod}/sub:\n    config:\n      all: true\n"
+
+
+def decoy_path(cfg, root):
+    """Where lexical cleaning of the --config string would point (None when that is the target itself)."""
+    return {"linkup": root / "x.yml", "linkupabs": root / "xa.yml"}.get(cfg)
+
+
+def load_args(cfg, target, pre, post):
+    """argv prefix for showconfig / the plain run.  koanf's file provider cleans the path lexically when READING, so
+    for the classes where that differs from kernel resolution the written file is loaded by its physical path."""
+    if cfg in ("linkup", "linkupabs"):
+        return ["--config", str(target)]
+    return pre + post
+
+
+def elsewhere(before, after, root, target):
+    """Paths of the world (relative to the module root) created / changed / removed, other than the target path and
+    the directories leading to it."""
+    trel = os.path.relpath(target, root)
+    parts = trel.split(os.sep)[:-1]
+    lead = {os.sep.join(parts[:i]) for i in range(1, len(parts) + 1)}
+    return sorted(p_ for p_ in set(before) | set(after)
+                  if before.get(p_) != after.get(p_) and p_ != trel and p_ not in lead and not p_.startswith(trel + "/"))
 
 
 def snapshot(target: Path):
@@ -260,6 +296,9 @@ def make_world(ctx, run, idx, case):
     (root / "sub" / "z.go").write_text(SUB_Z_GO)
     (root / "cfgs").mkdir()
     cwd, target, pre, post = cfg_layout(case["cfg"], root)
+    dp = decoy_path(case["cfg"], root)
+    if dp is not None and case.get("decoy") == "valid":
+        dp.write_text("# a config that happens to sit where the cleaned --config string would point\n" + USER_VALID.format(mod=mod))
     anc = case.get("anc", "none")
     if anc != "none":
         # u<levels above the working directory>-<yaml|yml>-<valid|empty>
@@ -386,14 +425,16 @@ def replay_case(ctx, run, idx, case):
         tf = ctx.scratch / "worlds" / f"w{idx}.trace{j}"
         if o["op"] == "init":
             s = pkg_string(world, o["pkg"])
+            tree0 = tree_hash(root)
             code, out, err, hev, wall = run.mockery(cwd, pre + ["init"] + post + ["--", s], tf, env=ENVS[case.get("env", "none")])
             after = snapshot(target)
+            else_ = elsewhere(tree0, tree_hash(root), root, target)
             created = after != before and pres != "yes" and os.path.isfile(target)
             ev = {"op": "init", "case": idx, "pkg": s, "exit": code, "before": before, "after": after,
-                  "presence": pres, "created": created, "env": sorted(ENVS[case.get("env", "none")])}
-            ob = {"ok": code == 0, "after": "same" if after == before else ("created" if created else "changed")}
+                  "presence": pres, "created": created, "elsewhere": else_, "env": sorted(ENVS[case.get("env", "none")])}
+            ob = {"ok": code == 0, "after": "same" if after == before else ("created" if created else "changed"), "elsewhere": else_}
         elif o["op"] == "load":
-            code, out, err, hev, wall = run.mockery(cwd, pre + post + ["showconfig"], tf)
+            code, out, err, hev, wall = run.mockery(cwd, load_args(case["cfg"], target, pre, post) + ["showconfig"], tf)
             after = snapshot(target)
             keys, eff = read_showconfig(out) if code == 0 else ([], {})
             fkeys, allv, top = read_file_projection(target) if os.path.isfile(target) else (["<no file>"], "-", {})
@@ -401,7 +442,7 @@ def replay_case(ctx, run, idx, case):
                   "fkeys": fkeys, "all": allv, "top": top, "eff": eff}
             ob = {"ok": code == 0, "keys": keys, "fkeys": fkeys, "all": allv}
         elif o["op"] == "run":
-            code, out, err, hev, wall = run.mockery(cwd, pre + post, tf)
+            code, out, err, hev, wall = run.mockery(cwd, load_args(case["cfg"], target, pre, post), tf)
             after = snapshot(target)
             pid = o["pkg"]
             mocked = mocked_interfaces(root, world, pid, hev) if pid in ("root", "sub") else []
@@ -432,11 +473,24 @@ def race_case(ctx, run, idx, n, rnd):
     # all commands block on a FIFO and are released together (as close to simultaneous as processes get)
     fifo = root.parent.parent / "gate"
     os.mkfifo(fifo)
+    gate = os.open(fifo, os.O_RDWR)       # we are a writer, so the racers' reads block until we close
     procs = [subprocess.Popen(["sh", "-c", 'read _ < "$0"; exec "$@"', str(fifo), run.bin, *pre, "init", *post, "--", pkgs[i]],
                               cwd=cwd, env=go_env(), stdout=subprocess.PIPE, stderr=subprocess.STDOUT) for i in range(n)]
-    time.sleep(0.03 + 0.004 * n)
-    with open(fifo, "w"):
-        pass
+    deadline = time.time() + 60
+    for p_ in procs:                      # wait until every racer sits in its read on the FIFO
+        while True:
+            try:
+                if os.readlink(f"/proc/{p_.pid}/fd/0") == str(fifo):
+                    break
+            except OSError:
+                pass
+            if time.time() > deadline:
+                os.close(gate)
+                for q in procs:
+                    q.kill()
+                raise MachineryError("concurrent inits: the racers did not reach the gate")
+            time.sleep(0.002)
+    os.close(gate)                        # no writer left: every read returns, all commands start together
     res = []
     for p_ in procs:
         try:
@@ -476,7 +530,7 @@ def judge_case(ctx, idx, case, obs):
     world = case["world"]
     for j, (o, ob) in enumerate(zip(case["ops"], obs)):
         base = {"op": o["op"], "world_class": "main" if world == "main" else world[0], "cfg": case["cfg"],
-                "start": case["start"], "env": case.get("env", "none"), "anc": case.get("anc", "none"), "pkg_id": o["pkg"], "step": j,
+                "start": case["start"], "env": case.get("env", "none"), "anc": case.get("anc", "none"), "decoy": case.get("decoy", "none"), "pkg_id": o["pkg"], "step": j,
                 "str_class": str_class(pkg_string(world, o["pkg"])) if o["pkg"] != "-" else "-"}
         det = {"case": case, "step": j, "observed": {k: v for k, v in ob.items() if k != "hook"}, "pkg_string": pkg_string(world, o["pkg"]) if o["pkg"] != "-" else None,
                "module": module_of(world)}
@@ -484,6 +538,8 @@ def judge_case(ctx, idx, case, obs):
             got = {"ok": ob["ok"], "after": ob["after"]}
             if got not in o["allow"]:
                 bad.append((dict(base, kind="init-outcome", got_ok=ob["ok"], got_after=ob["after"]), dict(det, allowed=o["allow"])))
+            elif ob["elsewhere"]:
+                bad.append((dict(base, kind="init-wrote-elsewhere", where=",".join(ob["elsewhere"])[:80]), dict(det, expect="created exactly at the target path, nothing else touched")))
             elif got != {"ok": o["ok"], "after": o["after"]}:
                 ctx.note(f"drift: init outcome {got} differs from InitCmd.tla ({o['ok']},{o['after']}) but is allowed (cfg={case['cfg']}, start={case['start']})")
         elif o["op"] == "load":
@@ -637,7 +693,7 @@ def run(ctx):
         keyed[json.dumps(c, sort_keys=True)] = c
     cases = list(keyed.values())
     def opkey(c):
-        return (c["world"], c["cfg"], c["start"], c.get("env", "none") + "/" + c.get("anc", "none"), tuple(json.dumps(o, sort_keys=True) for o in c["ops"]))
+        return (c["world"], c["cfg"], c["start"], c.get("env", "none") + "/" + c.get("anc", "none") + "/" + c.get("decoy", "none"), tuple(json.dumps(o, sort_keys=True) for o in c["ops"]))
     keys = {opkey(c) for c in cases}
     prefixes = set()
     for k in keys:
@@ -663,6 +719,8 @@ def run(ctx):
         "init under MOCKERY_* variables, judged run": lambda c: c.get("env", "none") != "none" and any(o["op"] == "run" and o["expect"]["judged"] for o in c["ops"]),
         "ancestor config, judged run": lambda c: c.get("anc", "none") != "none" and any(o["op"] == "run" and o["expect"]["judged"] for o in c["ops"]),
         "ancestor .mockery.yaml two levels up": lambda c: c.get("anc", "").startswith("u2-yaml"),
+        "symlink/.. target with a file at the real target only": lambda c: c["cfg"] in ("linkup", "linkupabs") and c["start"] != "absent" and c.get("decoy") == "absent",
+        "symlink/.. target absent, decoy present": lambda c: c["cfg"] in ("linkup", "linkupabs") and c["start"] == "absent" and c.get("decoy") == "valid" and any(o["op"] == "load" and o["expect"]["judged"] for o in c["ops"]),
         "init under MOCKERY_CONFIG": lambda c: c.get("env") in ("config", "several") and any(o["op"] == "init" and o["ok"] for o in c["ops"]),
         "dangling link": lambda c: c["start"] == "dangling",
         "directory at the target": lambda c: c["start"] in ("dir", "dirfull"),
@@ -806,7 +864,7 @@ def run(ctx):
     # ---------------------------------------------------------------- evidence
     mid = len(cases) // 2
     for i in (0, mid, len(cases) - 1):
-        ctx.sample({"case": {k: cases[i].get(k) for k in ("world", "cfg", "start", "env", "anc")},
+        ctx.sample({"case": {k: cases[i].get(k) for k in ("world", "cfg", "start", "env", "anc", "decoy")},
                     "ops": [{"op": o["op"], "pkg": pkg_string(cases[i]["world"], o["pkg"]) if o["pkg"] != "-" else None} for o in cases[i]["ops"]],
                     "op_log": by_case[i][1:]})
     for i, c in enumerate(cases):
